@@ -161,7 +161,11 @@ CLAIMS["C12"] = {
             "TunnelServiceHandler + ReverseTunnelServer over grpc-go on bufconn, random open/close/pick sequences, AllReverseTunnels/KeyAsChannel/Ready compared with the model; WaitForReady over the channel-identity model (C12_no_lost_wakeup, C12_wait_iff_ready, C12_latch, C12_waiters_refine_pool); "
             "and the free-running registry world: per round a fresh affinity key, 2-4 registrations released together by a barrier inside the AffinityKey callback, optionally a concurrent "
             "WaitForReady; once all open callbacks fired the registry must be exactly those tunnels (enumeration, Ready, n routed RPCs reach n distinct tunnels, waiter released, nothing left "
-            "after they end) - the model's answer is independent of the registration order.",
+            "after they end) - the model's answer is independent of the registration order. Below quiescence (L-atomic model TunnelModel/RegAtomic.lean: n tunnels with colliding keys, one action per critical section of "
+            "openReverseTunnel and of the unregister callback, closes at any moment, EVERY schedule): at every resting state the registry (both levels) is exactly the open, fully registered tunnels "
+            "(C12_registry_exact_at_rest, C12_registry_exact_tunnel), one pool per key ever (C12_one_pool_per_key), progress and a bound of ten actions per tunnel (C12_registration_progress), and the "
+            "counter-example for look-up and creation in separate critical sections (C12_double_checked_creation_orphans_a_pool); the driver answers the free-running world from this model and from the "
+            "API-level one and requires them to agree.",
     "design_ref": "DESIGN.md A2 (C12)",
     "note": "Trusted: Lean kernel; API-granular model (one step = one API event at quiescence); grpc-go. The two registration steps of openReverseTunnel are below the model's granularity: covered by the scenario at the registration yield point, the free-running world, and the "
             "regenerated obligation C15_one_critical_section_per_function (pool look-up and creation in one critical section).",
@@ -185,7 +189,8 @@ CLAIMS["C14"] = {
             "goroutine, the census is exactly handlers not returned + contexts not ended, zero after the tunnel ended and handlers returned, zero on the client after close "
             "(C14_server_no_goroutine_left, C14_server_census, C14_server_after_tunnel_end, C14_client_no_goroutine_left, C14_client_after_tunnel_end). Tied to the code at every "
             "quiescent moment of every scenario of " + _W1 + " " + _SRV + " " + _CLI + ": tables via Verif*State, goroutines via runtime.Stack filtered on goroutines created by library "
-            "functions, both compared with the model's table and census; registry and lifecycle worlds for the registry part.",
+            "functions, both compared with the model's table and census; registry and lifecycle worlds for the registry part; under every interleaving of the registration and unregistration steps nothing is left "
+            "in the registry once all tunnels ended (C14_registry_nothing_left_behind; counter-example C14_single_unregister_leaves_entry).",
     "design_ref": "DESIGN.md A2 (C14)",
     "note": "Trusted: as C08; one-Send goroutines end when the carrier accepts or fails the Send (harness carriers never block; the census counts any that linger). GC-level retention is outside the model.",
     "technique": "Lean 4 invariants (tables, goroutine census) over all reachable endpoint states + per-step census/table correspondence",
@@ -195,10 +200,10 @@ CLAIMS["C15"] = {
             "executions with mutexes, close/receive and go: common lock, publication and construction each imply happens-before, and a consistently protected variable has no "
             "data race in any well-formed execution (C15_hb_of_common_lock, C15_hb_of_publication, C15_hb_of_go, C15_race_free_of_discipline); (b) on every run, that the CURRENT "
             "sources obey the discipline: the go/ast extractor regenerates every access to every field of every shared struct with the locks held there (inter-procedurally, defers "
-            "unwound LIFO), and C15_discipline / C15_blocking_calls_hold_no_loop_lock / C15_receive_loops_never_send / C15_waits_hold_no_lock / C15_one_critical_section_per_function (no function splits its accesses to lock-protected data over two critical sections of that lock, nothing written under a read lock: atomicity of check-then-act) / C15_lock_order_acyclic are decided by the kernel over that table (decide +kernel). "
+            "unwound LIFO), and C15_discipline / C15_blocking_calls_hold_no_loop_lock / C15_receive_loops_never_send / C15_waits_hold_no_lock / C15_one_critical_section_per_function (no function splits its accesses to lock-protected data over two critical sections of that lock, nothing written under a read lock: atomicity of check-then-act) / C15_wakeups_need_no_sleeper_lock (no channel is closed or sent on under a mutex that a waiter on that channel holds) / C15_lock_order_acyclic are decided by the kernel over that table (decide +kernel). "
             "A removed or narrowed lock, an unlocked access, a new unprotected field, a callback under a loop lock or a lock-order cycle breaks the obligation and the offending rows are printed. "
             "Search for failing inputs: race-instrumented stress of real grpc-go tunnels with random delays at the yield points (Trailer()/call-option reads right after completion, "
-            "Close/Stop during RPCs, registry queries during open/close).",
+            "Close/Stop during RPCs, registry queries during open/close), and the deterministic S-, C- and W1 worlds run as a search for deadlocks (the hang watchdog) and panics.",
     "design_ref": "DESIGN.md A2 (C15), A3",
     "note": "Trusted: Lean kernel; the syntactic extractor (aliasing, closures stored and called later are treated as holding no lock); the hand-written protections table; the Go memory "
             "model's definition of happens-before as transcribed in Lockset.lean; grpc-go/context internals are out of scope. The race detector is supporting evidence only.",
